@@ -96,9 +96,33 @@ func groupsStr(s *c2.Session) string {
 	return strings.Join(o, ",")
 }
 
+// group identifiers the real sender handed out during this run (Session.write draws a random 16-bit
+// identifier per split packet): the receiver keys its reassembly state by this identifier alone, so
+// two groups open at the same time must not share one. A repeat within one case happens by chance
+// once in 65536 pairs; more than that means the field is being lost on the way.
+var (
+	c02GroupsSeen, c02GroupsDup int
+	c02GroupDupEx              string
+	c02GroupIDs                = map[uint16]int{}
+)
+
+func c02GroupVerdict(c *Ctx) {
+	c.Cases("groupids", 1, func(r *Rng, i int) {
+		in := map[string]interface{}{"groups": c02GroupsSeen, "distinct_ids": len(c02GroupIDs), "repeats_within_a_case": c02GroupsDup, "example": c02GroupDupEx}
+		if c02GroupsDup >= 3 {
+			c.Fail("split", "split:group-ids-repeat", fmt.Sprintf("%d of %d split packets got a group identifier already used by another group of the same case (%s): concurrent groups share one reassembly state", c02GroupsDup, c02GroupsSeen, c02GroupDupEx), in)
+		}
+		if c02GroupsSeen >= 40 && len(c02GroupIDs)*2 < c02GroupsSeen {
+			c.Fail("split", "split:group-ids-not-distinct", fmt.Sprintf("%d split packets got only %d distinct group identifiers", c02GroupsSeen, len(c02GroupIDs)), in)
+		}
+		c.Eval(c02GroupsSeen > 0, "groupids")
+	})
+}
+
 func runC02(c *Ctx) {
 	saveF := limits.Frag
 	defer func() { limits.Frag = saveF }()
+	defer c02GroupVerdict(c)
 	devA := device.ID{1, 2, 3}
 	c.Cases("frag", c.N(500, 8000), func(r *Rng, i int) {
 		F := c02F[r.Intn(len(c02F))]
@@ -129,8 +153,15 @@ func runC02(c *Ctx) {
 				return
 			}
 			g := frs[0].Flags.Group()
+			c02GroupsSeen++
+			c02GroupIDs[g]++
 			if used[g] {
-				return // the sender drew the same random group twice: outside the property's quantifier
+				// the sender drew the same random group twice within one case: by chance once in 65536
+				// pairs (outside the property's quantifier) - counted, and reported at the end of the run
+				// when it happens more often than chance allows (the group field is being lost)
+				c02GroupsDup++
+				c02GroupDupEx = fmt.Sprintf("group id 0x%X of %s", g, fz.tok)
+				return
 			}
 			used[g] = true
 			toks := make([]string, len(frs))
@@ -372,7 +403,11 @@ func runC02(c *Ctx) {
 			if len(frs) < 2 {
 				return
 			}
+			c02GroupsSeen++
+			c02GroupIDs[frs[0].Flags.Group()]++
 			if _, dup := gids[frs[0].Flags.Group()]; dup {
+				c02GroupsDup++
+				c02GroupDupEx = fmt.Sprintf("group id 0x%X (senddrop, F=%d)", frs[0].Flags.Group(), F)
 				return
 			}
 			gids[frs[0].Flags.Group()] = gi
